@@ -138,6 +138,10 @@ def run(ctx, widen=False):
                 "repeated-symbol kind, or a compile-time rejection was confirmed at several points; distinct seeds")
     base = ctx.seed * 1000003 + 6500000
     pipeline.run_stream(ctx, __name__, range(base, base + n))
+    # second family: subroutines with 2-4 input ports each, most of them constrained (constants, repeated symbols, compound
+    # sizes), so that SEVERAL constraints per routine — some settled at compile time, some depending on the inputs — are the norm
+    pipeline.run_stream(ctx, __name__, range(base + 50000, base + 50000 + n // 2),
+                        extra={"leaf_inputs": [2, 3, 3, 4], "size_thresholds": (0.05, 0.2, 0.4), "p_fault_size": 0.3, "max_children": 2, "max_depth": 2})
     corpus(ctx)
 
 
